@@ -219,6 +219,12 @@ def generate(rng, opts):
             for i, x in enumerate(ring):
                 j = (i + 1) % len(ring)
                 modules[x]["stmts"].append({"s": "allplus", "mod": holders[j], "name": f"m{j}", "form": "via", "names": [rng.choice(NAMES)], "i": 90 + i})
+    stubs = {}
+    if cfg["external"] and rng.random() < 0.3:
+        # top-level stubs next to an external package; broken stubs make its on-demand load fail *after* the runtime
+        # package was registered in the collection
+        for pkg in rng.sample(["ext", "_p"], rng.choice([1, 2])):
+            stubs[pkg] = rng.choice(["ok", "broken", "broken"])
     faults = []
     if cfg["faults"]:
         victims = [mp for mp in modules if mp.split(".")[0] in extra] or list(modules)
@@ -256,7 +262,7 @@ def generate(rng, opts):
         ops.append({"op": "resolve", "loader": 0, "implicit": True, "external": rng.choice([True, False, None]), "max_iter": None})
     if rng.random() < 0.3:
         ops.append({"op": "json"})
-    return {"world": {"modules": modules}, "faults": faults, "ops": ops, "cfg": cfg}
+    return {"world": {"modules": modules, "stubs": stubs}, "faults": faults, "ops": ops, "cfg": cfg}
 
 
 # ------------------------------------------------------------------------------------------------
@@ -270,6 +276,9 @@ def render_world(world):
         parts = mp.split(".")
         rel = "/".join(parts) + ("/__init__.py" if m["init"] else ".py")
         files[rel] = "".join(_render_stmt(s) for s in m["stmts"]) or "\n"
+    for pkg, kind in world.get("stubs", {}).items():
+        if pkg in mods:
+            files[f"{pkg}/__init__.pyi"] = "def f() -> int: ...\n" if kind == "ok" else "def f(:\n"
     return [files]
 
 
@@ -440,7 +449,7 @@ def _execute(plan, ctx, budget_mode):
     tracker = _Tracker(griffe)
     files = render_world(world)
     read_faults = [{"file": _mod_relpath(world, f["module"]), "kind": f["kind"], "nth": -1} for f in plan["faults"] if f["kind"] != "syntax" and f["module"] in world["modules"]]
-    faulty_pkgs = {f["module"].split(".")[0] for f in plan["faults"]}
+    faulty_pkgs = {f["module"].split(".")[0] for f in plan["faults"]} | {p for p, k in world.get("stubs", {}).items() if k == "broken"}
     all_pkgs = {mp.split(".")[0] for mp in world["modules"]}
     with World(files, tag="c06-") as w:
         seam = ReadSeam(w.root, read_faults, ctx)
@@ -708,25 +717,25 @@ def shrink_candidates(plan):
             for mp, m in mods.items():
                 if mp not in kept:
                     m["stmts"] = [s for s in m["stmts"] if s["s"] != "syntax_error"]
-            yield {**plan, "faults": red, "world": {"modules": mods}}
+            yield {**plan, "faults": red, "world": {**plan["world"], "modules": mods}}
     mods = plan["world"]["modules"]
     for mp in list(mods):
         if any(o.startswith(mp + ".") for o in mods):
             continue
         if "." not in mp and any(op.get("pkg") == mp for op in ops):
             continue
-        yield {**plan, "world": {"modules": {k: v for k, v in mods.items() if k != mp}}}
+        yield {**plan, "world": {**plan["world"], "modules": {k: v for k, v in mods.items() if k != mp}}}
     for mp, m in mods.items():
         for red in core.list_reductions(m["stmts"]):
-            yield {**plan, "world": {"modules": {**mods, mp: {**m, "stmts": red}}}}
+            yield {**plan, "world": {**plan["world"], "modules": {**mods, mp: {**m, "stmts": red}}}}
         for i, st in enumerate(m["stmts"]):
             if st["s"] == "class" and st["body"]:
                 for red in core.list_reductions(st["body"]):
                     new = {**st, "body": red}
-                    yield {**plan, "world": {"modules": {**mods, mp: {**m, "stmts": m["stmts"][:i] + [new] + m["stmts"][i + 1 :]}}}}
+                    yield {**plan, "world": {**plan["world"], "modules": {**mods, mp: {**m, "stmts": m["stmts"][:i] + [new] + m["stmts"][i + 1 :]}}}}
             if st["s"] in ("from", "import") and st.get("as"):
                 new = {**st, "as": None}
-                yield {**plan, "world": {"modules": {**mods, mp: {**m, "stmts": m["stmts"][:i] + [new] + m["stmts"][i + 1 :]}}}}
+                yield {**plan, "world": {**plan["world"], "modules": {**mods, mp: {**m, "stmts": m["stmts"][:i] + [new] + m["stmts"][i + 1 :]}}}}
     for i, op in enumerate(ops):
         if op["op"] == "resolve" and (op["max_iter"] is not None):
             yield {**plan, "ops": ops[:i] + [{**op, "max_iter": None}] + ops[i + 1 :]}
